@@ -499,7 +499,14 @@ static void run_case(uint64_t seed, uint64_t idx, const char *tier, const char *
         case 0: sb_printf(&v, "%s", tx.s); mode = 'E'; break;
         case 1: sb_printf(&v, "%d %d 2\n%d\n\n-1\n0\n%s", m, n, nnz + 2, body.s); break;
         case 2: sb_printf(&v, "%d %d 2\n%d\n\n%ld\n%s", m, n, nnz + 1, 1 + (long)rng_below(&rg, (uint64_t)n), body.s); break;
-        case 3: sb_printf(&v, "%s%ld\n", tx.s, (long)n + 1 + (long)rng_below(&rg, 70)); break;
+        case 3: { /* index beyond ncols: just beyond, or huge (also values that are valid modulo 2^32, modulo 2^31, ...) */
+          long big[] = { 4294967296L, -4294967296L, 8589934592L, 2147483648L, 1099511627776L, 4294967296L * 3 };
+          long tok = (long)n + 1 + (long)rng_below(&rg, 70);
+          if (rng_chance(&rg, 1, 2)) { long bb = big[rng_below(&rg, 6)]; long vv = 1 + (long)rng_below(&rg, (uint64_t)n); tok = bb > 0 ? bb + vv : bb - vv; }
+          if (tok < 0) sb_printf(&v, "%d %d 2\n%d\n\n%ld\n", m, n, 1, tok); /* a negative entry opens a row: make it the only one */
+          else sb_printf(&v, "%s%ld\n", tx.s, tok);
+          break;
+        }
         case 4: sb_printf(&v, "%s-1\n", tx.s); break;
         case 5: sb_printf(&v, "%d %d %d\n%d\n\n%s", m, n, 3 + (int)rng_below(&rg, 5), nnz, body.s); break;
         case 6: { const char *hs[] = { "", "12", "12 13", "12 13 2", "x y z", "12 13 2 q" }; sb_printf(&v, "%s", hs[rng_below(&rg, 6)]); break; }
